@@ -106,7 +106,15 @@ fn content(seed: u64, label: &str, compressible: bool, want_big: bool) -> Vec<u8
         } as usize;
         (class, if big > 0 { big } else { len })
     };
-    let mut v = gen_content(class, len, &mut rng);
+    let mut v = if want_big && compressible {
+        // compresses well as ONE unit (zlib window) but not sector by sector: an incompressible block of 20 000 bytes,
+        // repeated - the sectored copy compact() writes is several times larger than the single-unit original
+        let block = rng.bytes(20_000);
+        let total = rng.range(60_000, 200_000) as usize;
+        block.iter().cycle().take(total).cloned().collect()
+    } else {
+        gen_content(class, len, &mut rng)
+    };
     // make every content unique: overwrite a few leading bytes with label-derived hex digits
     let t = tok(label.as_bytes());
     for (i, b) in t.bytes().take(v.len().min(6)).enumerate() {
@@ -414,6 +422,11 @@ fn run_history(cx: &Ctx, c: &Value, dir: &Path, seed: u64) {
         *m = v.flatten();
         res == "ok" && m.is_some()
     };
+    // content values by token key ("i:<name>" = what the starting archive holds)
+    let mut by_key: std::collections::HashMap<String, Vec<u8>> = std::collections::HashMap::new();
+    for n in &init {
+        by_key.insert(format!("i:{n}"), content(seed, &format!("{case}:init:{n}"), true, false));
+    }
     let mut alive = open(cx, &mut m, 0);
     let mut ck = 0usize;
     let ops = ga(c, "ops");
@@ -429,7 +442,15 @@ fn run_history(cx: &Ctx, c: &Value, dir: &Path, seed: u64) {
                 let enc = gs(o, "enc");
                 let rep = gb(o, "rep");
                 let big = o.get("big").and_then(|x| x.as_bool()).unwrap_or(false);
-                let data = content(seed, &format!("{case}:op{oi}:{n}"), comp != "none", big);
+                // the content VALUE is named by the op's token key: a fresh one ("o<k>") or one this name held before
+                let key = match o.get("tok").and_then(|x| x.as_str()) {
+                    Some(k) if !k.is_empty() => k.to_string(),
+                    _ => format!("o{}", oi + 1),
+                };
+                let data = by_key
+                    .entry(key.clone())
+                    .or_insert_with(|| content(seed, &format!("{case}:op{oi}:{n}"), comp != "none", big))
+                    .clone();
                 let mut opts = AddFileOptions::new()
                     .compression(match comp {
                         "none" => CompressionMethod::None,
@@ -443,7 +464,7 @@ fn run_history(cx: &Ctx, c: &Value, dir: &Path, seed: u64) {
                     opts = opts.fix_key();
                 }
                 let cn = uni.conc_of(n).to_string();
-                let ev = json!({"ev":"Add","case":case,"oi":oi + 1,"okey":format!("o{}", oi + 1),"n":n,"tok":tok(&data),"len":data.len(),"rep":rep,"comp":comp,"enc":enc,"st":no_state()});
+                let ev = json!({"ev":"Add","case":case,"oi":oi + 1,"okey":key,"n":n,"tok":tok(&data),"len":data.len(),"rep":rep,"comp":comp,"enc":enc,"st":no_state()});
                 let ma = m.as_mut().unwrap();
                 let (ares, _) = cx.op_with(ev, || { let r = classify(&ma.add_file_data(&data, &cn, opts)); (r, state_of(ma)) }, |ev, st| ev["st"] = st.clone());
                 let _ = ares;
